@@ -444,7 +444,7 @@ def d1_plan(tier):
     return plan
 
 
-TRIPLE_CTX = (0, 7, 14)
+TRIPLE_CTX = (0, 3, 7, 11, 14, 18)
 
 
 def ctxs_for(rule, index):
